@@ -12,7 +12,9 @@ PA == <<"p", "a">>   PAB == <<"p", "a", "b">>   ZZ == <<"z", "z">>
 Menu == { Ln("ALLOWED", "c1", PA, FALSE), Ln("DENIED", "c2", PAB, FALSE), Ln("AUDIT", "c3", ZZ, FALSE),
           Ln("ALLOWED", "c1", PA, FALSE), Ln("DENIED", "c4", PA, TRUE), Ln("STATUS", "c5", PA, FALSE),
           Ln("foreign", "c6", <<>>, FALSE), Ln("blank", "c7", <<>>, FALSE), Ln("garbled", "c8", <<>>, FALSE),
-          Ln("long", "c9", PAB, FALSE), Ln("DENIED", "c10", ZZ, FALSE), Ln("trunc", "c11", PA, FALSE) }
+          Ln("long", "c9", PAB, FALSE), Ln("DENIED", "c10", ZZ, FALSE), Ln("trunc", "c11", PA, FALSE),
+          \* a twin of c2: the same record except for fields the default display does not show (fsuid, ouid, hostname)
+          Ln("DENIED", "c2t", PAB, FALSE) }
 Filters == {<<>>, PA, PAB, ZZ}
 
 Init == input = <<>> /\ filter \in Filters /\ pos = 0 /\ stopped = FALSE /\ kept = <<>>
